@@ -5,6 +5,65 @@ import random
 from ..core import Case, err_name, call_with_alarm, Timeout, dec_val, enc_val
 
 _ABSENT = object()
+
+
+class _StrictKey:
+    """a key whose `__eq__` works among its own kind only (`self.parts == other.parts`): a valid dict key — a dict compares keys
+    only when their hashes are equal — that raises as soon as somebody compares it with a key of another kind"""
+    __slots__ = ("v",)
+
+    def __init__(self, v):
+        self.v = v
+
+    def __hash__(self):
+        return hash((type(self).__name__, self.v))
+
+    def __eq__(self, other):
+        return self.v == other.v and type(other) is type(self)
+
+    def __repr__(self):
+        return str(self.v)
+
+
+class KA(_StrictKey):
+    __slots__ = ()
+
+
+class KB(_StrictKey):
+    __slots__ = ()
+
+
+def kint(k):
+    return k.v if isinstance(k, _StrictKey) else k
+
+
+class FinVal(int):
+    """a value with a finalizer that asks the cache about its own key: when the value is released because its entry is evicted,
+    the key must already be gone from the cache (the lookups are misses and change nothing)"""
+    watch = None  # (cache, log) while the harness performs a store that must evict an entry
+
+    def __new__(cls, v, key):
+        o = int.__new__(cls, v)
+        o.key = key
+        return o
+
+    def __del__(self):
+        w = FinVal.watch
+        if w is not None:
+            c, log = w
+            try:
+                log.append((self.key, self.key in c, c.get(self.key, _ABSENT) is not _ABSENT))
+            except BaseException as e:  # noqa
+                log.append((self.key, "raised", type(e).__name__))
+
+    def __reduce__(self):
+        return (int, (int(self),))
+
+    def __copy__(self):
+        return int(self)
+
+    def __deepcopy__(self, memo):
+        return int(self)
 from ..seqcheck import SeqProp
 
 VIEW_OPS = ("values", "items", "eq", "popitem", "clear", "has")
@@ -87,7 +146,12 @@ class CacheProp(SeqProp):
                     ops.append("eq" + "".join(f" {kk} {rng.randint(0, 2)}" for kk in ks))
                 else:
                     ops.append(o)
-        return Case(ops, {})
+        meta = {}
+        if rng.random() < 0.2:
+            meta["strict_keys"] = True  # keys of three kinds in one cache, two of them comparable among their own kind only
+        if rng.random() < 0.2:
+            meta["fin"] = True  # values with a finalizer that looks its own key up when the entry is evicted
+        return Case(ops, meta)
 
     def exhaustive(self, tier):
         alphabet = [f"set {k} {v}" for k in range(3) for v in (1,)] + [f"get {k}" for k in range(3)] + \
@@ -119,20 +183,20 @@ class CacheProp(SeqProp):
             nodes.append(n)
             n = n.next_node
         if self.kind == "lru":
-            ks = [x.data[0] for x in nodes]
+            ks = [kint(x.data[0]) for x in nodes]
             vs = [x.data[1] for x in nodes]
             cs = None
         else:
-            ks = [x.data.key for x in nodes]
+            ks = [kint(x.data.key) for x in nodes]
             vs = [x.data.value for x in nodes]
             cs = [x.data.meta for x in nodes]
-        dk = sorted(c.cache.keys())
+        dk = sorted(kint(k) for k in c.cache.keys())
         ids = {id(x) for x in nodes}
 
         def key_of(node):
             return node.data[0] if self.kind == "lru" else node.data.key
 
-        agree = all(id(nd) in ids and key_of(nd) == k for k, nd in c.cache.items()) and len(c.cache) == len(nodes)
+        agree = all(id(nd) in ids and key_of(nd) is k or (type(key_of(nd)) is type(k) and key_of(nd) == k) for k, nd in c.cache.items()) and len(c.cache) == len(nodes)
         s = lambda xs: ",".join(map(str, xs))
         vs = [enc_val(v) for v in vs]
         out = f"K:{s(ks)} V:{s(vs)} "
@@ -160,7 +224,15 @@ class CacheProp(SeqProp):
                 return f"{name} gave {got!r}, a mapping gives {want!r}"
         return None
 
+    def K(self, i):
+        if not self._strict:
+            return i
+        return (i, KA(i), KB(i))[i % 3]
+
     def run_impl(self, case):
+        self._strict = bool(case.meta.get("strict_keys"))
+        self._fin = bool(case.meta.get("fin"))
+        cap_now = 1
         c = self.make(1)
         out = []
         # another cache of the same class is alive and in use all the time: caches are independent of each other
@@ -177,10 +249,22 @@ class CacheProp(SeqProp):
                 other_ref = [x for x in other_ref if x[0] != f"b{n % 3}"] + [(f"b{n % 3}", n)]
             except Exception:  # noqa
                 other_ref = None
+            fin_log = None
+            if self._fin and w[0] == "set":
+                try:
+                    if len(c) == cap_now and int(w[1]) not in [kint(x) for x in c]:
+                        fin_log = []
+                        FinVal.watch = (c, fin_log)  # this store has to evict an entry
+                except Exception:  # noqa
+                    pass
             try:
-                r = call_with_alarm(lambda: self.do_op(c, w), 2.0)
+                try:
+                    r = call_with_alarm(lambda: self.do_op(c, w), 2.0)
+                finally:
+                    FinVal.watch = None
                 if isinstance(r, tuple) and r[0] == "new":
                     c = r[1]
+                    cap_now = int(w[1])
                     r = "ok"
                     shallow[0] = None  # the copy belonged to the cache that was just replaced
             except Timeout:
@@ -197,6 +281,10 @@ class CacheProp(SeqProp):
             else:
                 out.append(r + " " + self.digest(c))
                 mix = None
+                bad = [x for x in (fin_log or []) if x[1] is not False or x[2] is not False]
+                if bad:
+                    mix = (f"during the store that evicted key {bad[0][0]} the finalizer of the evicted value looked its key up: "
+                           f"`key in cache` gave {bad[0][1]!r}, `get(key)` found something: {bad[0][2]!r} (the key is gone: both are misses)")
                 if n % 3 == 2:
                     mix = self.absent_probe(c)
                 if n == 3:
@@ -230,44 +318,50 @@ class CacheProp(SeqProp):
     def do_op(self, c, w):
         s = lambda xs: ",".join(map(str, xs))
         o = w[0]
+        K = self.K
+
+        def V(code, k):
+            v = dec_val(code)
+            return FinVal(v, K(k)) if self._fin and type(v) is int and v >= 5 else v
+
         if o == "new":
             return ("new", self.make(int(w[1])))
         if o == "set":
-            c[int(w[1])] = dec_val(int(w[2])); return "ok"
+            c[K(int(w[1]))] = V(int(w[2]), int(w[1])); return "ok"
         if o == "get":
-            return f"ret {enc_val(c[int(w[1])])}"
+            return f"ret {enc_val(c[K(int(w[1]))])}"
         if o == "del":
-            del c[int(w[1])]; return "ok"
+            del c[K(int(w[1]))]; return "ok"
         if o == "has":
-            return f"ret {1 if int(w[1]) in c else 0}"
+            return f"ret {1 if K(int(w[1])) in c else 0}"
         if o == "len":
             return f"ret {len(c)}"
         if o == "iter":
-            return f"list {s(list(c))}"
+            return f"list {s(kint(k) for k in c)}"
         if o == "keys":
-            return f"list {s(list(c.keys()))}"
+            return f"list {s(kint(k) for k in c.keys())}"
         if o == "values":
             return f"list {s(enc_val(v) for v in c.values())}"
         if o == "items":
-            return "pairs " + ",".join(f"{k}:{enc_val(v)}" for k, v in c.items())
+            return "pairs " + ",".join(f"{kint(k)}:{enc_val(v)}" for k, v in c.items())
         if o == "getd":
             # a stored None must not be taken for "absent"
-            v = c.get(int(w[1]), _ABSENT)
+            v = c.get(K(int(w[1])), _ABSENT)
             return f"ret {'-' if v is _ABSENT else enc_val(v)}"
         if o == "pop":
-            return f"ret {enc_val(c.pop(int(w[1])))}"
+            return f"ret {enc_val(c.pop(K(int(w[1]))))}"
         if o == "popitem":
-            k, v = c.popitem(); return f"pairs {k}:{enc_val(v)}"
+            k, v = c.popitem(); return f"pairs {kint(k)}:{enc_val(v)}"
         if o == "clear":
             c.clear(); return "ok"
         if o == "update":
             a = [int(x) for x in w[1:]]
-            c.update(list(zip(a[0::2], map(dec_val, a[1::2])))); return "ok"
+            c.update([(K(k), V(v, k)) for k, v in zip(a[0::2], a[1::2])]); return "ok"
         if o == "setdefault":
-            return f"ret {enc_val(c.setdefault(int(w[1]), dec_val(int(w[2]))))}"
+            return f"ret {enc_val(c.setdefault(K(int(w[1])), V(int(w[2]), int(w[1]))))}"
         if o == "eq":
             a = [int(x) for x in w[1:]]
-            other = dict(zip(a[0::2], map(dec_val, a[1::2])))
+            other = dict(zip(map(K, a[0::2]), map(dec_val, a[1::2])))
             # one comparison only (a comparison is a use in the LFU cache): == and != alternate
             r = (c == other) if len(other) % 2 else not (c != other)
             return f"ret {1 if r else 0}"
